@@ -518,6 +518,135 @@ def compOracle (c : CompCase) (tm : Bool) (outs : List (List OutMan)) : String :
   | some r => s!"fail {r}"
   | none => "pass"
 
+/-! ### 2-D pose sequences of primitive pairs through the real `parry2d-f64` dispatcher
+kinds: 0 ball/ball · 1 cuboid/ball · 2 ball/cuboid · 3 halfspace/cuboid · 4 cuboid/halfspace -/
+structure Seq2 where
+  kind : Nat
+  a : V2 Float
+  b : V2 Float
+  pred : Float
+  poses : List (Iso2 Float)
+  oneshot : List (Bool × Float)
+
+def pseq2 : P Seq2 := do
+  let k ← pnat; let a ← pv2; let b ← pv2; let pr ← pf
+  let poses ← plist piso2
+  let o ← (pN (do let f ← pbool; let d ← pfo; pure (f, d)) poses.length) <|> pure []
+  pure ⟨k, a, b, pr, poses, o⟩
+
+def seqGen2 (s : Seq2) (pos12 : Iso2 Float) (m : Manifold2 Float) : Manifold2 Float :=
+  match s.kind with
+  | 0 => ballBall2 pos12 s.a.x s.b.x s.pred m
+  | 1 => convexBallShapes2 (cuboidProject2 s.a) false pos12 s.b.x s.pred m
+  | 2 => convexBallShapes2 (cuboidProject2 s.b) true pos12 s.a.x s.pred m
+  | 3 => halfspaceDispatch2 (cuboidSupportFace2 s.b) true pos12 s.a 0.0 s.pred
+  | _ => halfspaceDispatch2 (cuboidSupportFace2 s.a) false pos12 s.b 0.0 s.pred
+
+def seqModel2 (s : Seq2) : String :=
+  String.intercalate " " ((runSeq (seqGen2 s) Manifold2.new s.poses).map fman2)
+
+inductive Sh2 where
+  | ball (r : Rat)
+  | cuboid (he : V2 Rat) (surf : Bool)
+  | halfspace (n : V2 Rat)
+
+def seqShapes2 (s : Seq2) : Sh2 × Sh2 :=
+  let a := q2 s.a; let b := q2 s.b
+  match s.kind with
+  | 0 => (.ball a.x, .ball b.x)
+  | 1 => (.cuboid a true, .ball b.x)
+  | 2 => (.ball a.x, .cuboid b true)
+  | 3 => (.halfspace a, .cuboid b false)
+  | _ => (.cuboid a false, .halfspace b)
+
+def cuboidDistSq2 (he p : V2 Rat) : Rat :=
+  let c : V2 Rat := ⟨clampR p.x (-he.x) he.x, clampR p.y (-he.y) he.y⟩
+  (p.sub c).normSq
+
+def onShape2 (sh : Sh2) (p : V2 Rat) (tol : Rat) : Option String :=
+  match sh with
+  | .ball r => if close p.normSq (r * r) tol then none else some s!"not-on-ball |p|²={p.normSq} r²={r*r}"
+  | .cuboid he surf =>
+    let d2 := cuboidDistSq2 he p
+    if !(leTol d2 0 tol) then some s!"outside-cuboid d²={d2}"
+    else if surf && !(leTol (min (he.x - rabs p.x) (he.y - rabs p.y)) 0 tol) then some "not-on-cuboid-surface"
+    else none
+  | .halfspace n =>
+    let d := n.dot p
+    if close d 0 tol then none else some s!"not-on-plane n·p={d}"
+
+def vertsCuboid2 (he : V2 Rat) : List (V2 Rat) := [⟨he.x, he.y⟩, ⟨-he.x, he.y⟩, ⟨he.x, -he.y⟩, ⟨-he.x, -he.y⟩]
+
+def exactDist2 (sh : Sh2 × Sh2) (M : Iso2 Rat) : Rat :=
+  let sq := Rat.sqrtApprox
+  match sh with
+  | (.ball r1, .ball r2) => sq M.t.normSq - r1 - r2
+  | (.cuboid he _, .ball r) =>
+    let c := M.t
+    let d2 := cuboidDistSq2 he c
+    if d2 > 0 then sq d2 - r else -(min (he.x - rabs c.x) (he.y - rabs c.y)) - r
+  | (.ball r, .cuboid he _) =>
+    let c := M.invAct V2.zero
+    let d2 := cuboidDistSq2 he c
+    if d2 > 0 then sq d2 - r else -(min (he.x - rabs c.x) (he.y - rabs c.y)) - r
+  | (.halfspace n, .cuboid he _) => ((vertsCuboid2 he).map fun v => n.dot (M.act v)).foldl min (n.dot (M.act he))
+  | (.cuboid he _, .halfspace n) => ((vertsCuboid2 he).map fun v => n.dot (M.invAct v)).foldl min (n.dot (M.invAct he))
+  | _ => 0
+
+def manifoldOracle2 (sh : Sh2 × Sh2) (pos12 : Iso2 Float) (pred : Float) (m : Manifold2 Float)
+    (os : Option (Bool × Float)) : Option String :=
+  if !(finm2 m) then some "nonfinite-output" else
+  let M := qiso2 pos12
+  let P := q pred
+  let n1 := q2 m.n1; let n2 := q2 m.n2
+  let pts := m.points.map qc2
+  let tol : Rat := tolDefault
+  let D := exactDist2 sh M
+  let deep : Option Rat := pts.foldl (fun acc c => match acc with | none => some c.dist | some d => some (min d c.dist)) none
+  let presence : Option String :=
+    match deep with
+    | none => if D < P - (1 / 1000000) * (1 + rabs D + rabs P) then some s!"no-contact-but-exact-dist={D}<prediction" else none
+    | some d => if !(close d D (1 / 1000000 : Rat)) then some s!"deepest={d} exact={D}" else none
+  let oneshot : Option String :=
+    match os, deep with
+    | some (true, od), some d =>
+      if close d (q od) (1 / 1000000 : Rat) then none else some s!"deepest={d} one-shot={q od}"
+    | some (true, od), none =>
+      if q od < P - (1 / 1000000) * (1 + rabs (q od) + rabs P) then some s!"no-contact-but-one-shot={q od}" else none
+    | some (false, _), some d =>
+      if d < P - (1 / 1000000) * (1 + rabs d + rabs P) then some s!"contact-dist={d}-but-one-shot-none" else none
+    | _, _ => none
+  if pts.isEmpty then (presence <|> oneshot) else
+  if !(close (n1.dot n1) 1 tol) then some s!"n1-not-unit {n1.dot n1}" else
+  if !(close (n2.dot n2) 1 tol) then some s!"n2-not-unit {n2.dot n2}" else
+  if !(leTol cos1degR (-(n1.dot (M.rot n2))) tol) then some s!"normals-not-opposite cos={-(n1.dot (M.rot n2))}" else
+  let bad := pts.filterMap fun c =>
+    let d := ((M.act c.p2).sub c.p1).dot n1
+    if !(close c.dist d tol) then some s!"dist-identity dist={c.dist} expected={d}"
+    else match onShape2 sh.1 c.p1 tol with
+      | some r => some s!"p1-{r}"
+      | none => match onShape2 sh.2 c.p2 tol with
+        | some r => some s!"p2-{r}"
+        | none => if leTol c.dist P tol then none else some s!"dist={c.dist}>prediction"
+  match bad with
+  | b :: _ => some b
+  | [] => presence <|> oneshot
+
+def seqOracle2 (s : Seq2) (ms : List (Manifold2 Float)) : String :=
+  if ms.length != s.poses.length then "fail wrong-number-of-calls" else
+  if s.kind > 4 then "skip unknown-kind" else
+  let sh := seqShapes2 s
+  let rec go : Nat → List (Iso2 Float) → List (Manifold2 Float) → Option String
+    | _, [], _ => none
+    | _, _, [] => none
+    | i, p :: ps, m :: ms =>
+      match manifoldOracle2 sh p s.pred m (s.oneshot[i]?) with
+      | some r => some s!"call={i} {r}"
+      | none => go (i + 1) ps ms
+  match go 0 s.poses ms with
+  | some r => s!"fail {r}"
+  | none => "pass"
+
 def handler (fn : String) : Option Handler :=
   match fn with
   | "tuc3" => some {
@@ -582,6 +711,11 @@ def handler (fn : String) : Option Handler :=
       model := fun _ => some "oracle-only"
       oracle := fun a o => match run (pcomp true) a with
         | some c => withOut (pcalls c.poses.length) o (compOracle c true)
+        | none => "skip bad-args" }
+  | "seq2" => some {
+      model := fun a => run (do let s ← pseq2; pure (seqModel2 s)) a
+      oracle := fun a o => match run pseq2 a with
+        | some s => withOut (pN poman2 s.poses.length) o (seqOracle2 s)
         | none => "skip bad-args" }
   | _ => none
 
